@@ -31,7 +31,7 @@ Definition doc_tokens : list tokrow := Eval vm_compute in [
 Definition doc_tables (m : mode) : tables :=
   let G := tables_of m in
   mk_tables m doc_tokens (doc_table m) (t_steps G) (t_argv G) (t_regress_script G) (t_canvas_end G)
-            doc_rdomain_first (doc_rdomain_last + 1) true (t_execdir_default G) (t_depth_limit G) true.
+            doc_rdomain_first (doc_rdomain_last + 1) true (t_execdir_default G) (t_depth_limit G) true (t_builddir_guard G).
 
 (* robsd-config run on the documented tables *)
 Definition spec_config (E : env) (m : mode) (text : bytes) (vars : list bytes) (stdin : bytes) : cmdres :=
